@@ -66,11 +66,15 @@ NESTED1 = [  # blocks written on one line inside blocks: the trailing comment of
     # a block at the end of an except handler / case that is followed by another section of the same statement
     "try:\n    a\nexcept E:\n    if b: c  # c1\nelse:\n    d\nmatch s:\n    case 1:\n        while e: f  # c2\n    case _: pass",
 ]
+FSTR2 = [  # f-strings nested in a self-documenting field without being its value (inside a call, an operator, a list; quotes re-used)
+    "a = f'{len(f'{x }') = }'\nb = f'{f\"{x }\" + y = }'\nc = f'{[f'{x!r :>{w }}'] = !s:>10}'",
+    "d = f'{g(f'{ y }', k=f'{z :>{ n }}') = :>{ w }} {f'{ q }'}'",
+]
 ARGLAY = [  # arguments / bases and keywords laid out over lines with falling columns: source order is (line, column) order, neither alone
     "r = call(a, key=1,\n    *rest)\ns = f(k=v,\n  *p,\n *q, **w)",
     "class C(B, m=M,\n  *bases): pass\nt = g(      x,\n    k=y,\n  *z)(h)",
 ]
-PROGS = BASE[:46] + EXTRA + BASE[46:] + FSTR + MBML + GENERIC + NESTED1 + ARGLAY  # positional case ids: later additions go to the end
+PROGS = BASE[:46] + EXTRA + BASE[46:] + FSTR + MBML + GENERIC + NESTED1 + ARGLAY + FSTR2  # positional case ids: later additions go to the end
 for _p in PROGS:
     ast.parse(_p)
 
